@@ -614,7 +614,9 @@ impl PacketReceiver for IceConn {
                                 *probation_guard = None; // drop state
                                 drop(probation_guard);
 
-                                if win_addr != current_remote {
+                                // `remote_addr` now holds `addr` (the probation move
+                                // above), not the stale `current_remote` snapshot.
+                                if win_addr != addr {
                                     *self.remote_addr.write() = win_addr;
                                 }
                                 self.rtp_latched.store(true, Ordering::Relaxed);
